@@ -69,6 +69,12 @@ class TestTrace(trace.Trace):
     def start(self):
         assert not self.started, "can't start if already started"
         if not self.donothing:
+            # Remember what is installed now (a debugger, an outer coverage
+            # measurement): ``stop`` puts it back.
+            self._previous = (
+                sys.gettrace(),
+                getattr(threading, 'gettrace',
+                        lambda: getattr(threading, '_trace_hook', None))())
             sys.settrace = settrace
             sys.settrace(self.globaltrace)
             threading.settrace(self.globaltrace)
@@ -77,9 +83,10 @@ class TestTrace(trace.Trace):
     def stop(self):
         assert self.started, "can't stop if not started"
         if not self.donothing:
+            previous, previous_threading = self._previous
             sys.settrace = osettrace
-            sys.settrace(None)
-            threading.settrace(None)
+            sys.settrace(previous)
+            threading.settrace(previous_threading)
         self.started = False
 
 
